@@ -60,6 +60,8 @@ def run(shard, ctx):
                   if abs(n) > shard["k"]]
         # names a thousand and more accidentals long (pure and mixed): "whatever the input's accidentals"
         longs = [L + "#" * 1100, L + "b" * 1300, L + "#b" * 700, L + "b#" * 900 + "b"]
+        # ... and longer than the interpreter's recursion limit in these shards (3000)
+        longs += [L + "#" * 3400, L + "b#" * 1800 + "b"]
         # ... and long names that agree in letter, first accidental and length and differ in what they add up to
         longs += [L + "#" * (40 - f_) + "b" * f_ for f_ in (0, 5, 1, 20, 39)] + [L + "b" * (64 - f_) + "#" * f_ for f_ in (0, 7, 2)]
         for n in names + longs:
@@ -87,6 +89,30 @@ def run(shard, ctx):
             ctx.check("measure == pc difference mod 12", bad is None, {"distinct_long_names_so_far": bad[0] if bad else None}, None,
                       bad[1] if bad else None, mechanism="measure:many-distinct-long-names")
             ctx.case(("volume", L))
+        if L == "D":
+            # ... and a six-figure number of distinct short names in one process (all names with up to sixteen accidentals on
+            # one letter, in every order): volume alone, where a generous memo comes to its limit
+            bad, k = None, 0
+            want = shard.get("many", 131071)
+            for ln in range(0, 17):
+                for bits in range(2 ** ln):
+                    nm = L + "".join("#" if (bits >> j) & 1 else "b" for j in range(ln))
+                    k += 1
+                    sharps = bin(bits).count("1")
+                    d = (T.NAT["A"] - T.NAT[L] - sharps + (ln - sharps)) % 12
+                    try:
+                        v = intervals.measure(nm, "A")
+                    except Exception as e:      # noqa
+                        v = e
+                    if v != d:
+                        bad = (k, nm, repr(v)[:160])
+                        break
+                if bad or k >= want:
+                    break
+            ctx.count("measure == pc difference mod 12", k)
+            ctx.check("measure == pc difference mod 12", bad is None, {"distinct_short_names_so_far": bad[0] if bad else None, "name": bad[1] if bad else None},
+                      None, bad[2] if bad else None, mechanism="measure:six-figure-number-of-distinct-names")
+            ctx.case(("many-names", L, k))
         for n in longs:
             for other in ("C", "F#", "Bbb", longs[0]):
                 for (a, b) in ((n, other), (other, n)):
